@@ -364,6 +364,7 @@ func main() {
 					for rule := 0; rule < 2; rule++ {
 						one(w, base, rule, ml, 3)
 						mc.Mutations1(base, mc.AllBytes, func(m []byte) { one(w, m, rule, ml, 3) })
+						mc.MutationsTok(base, mc.Lookalikes, func(m []byte) { one(w, m, rule, ml, 3) })
 						one(w, append(append([]byte(nil), base...), '\n'), rule, ml, 3)
 					}
 				})
